@@ -1,12 +1,27 @@
 """C04 — results do not depend on the compute back-end (fastcore / igraph / networkx).
 
-The correspondence streams of C05 (distances, segments), C10 (reroot, cut, subset), C12 (pruning) —
-and C17 / C11 / C13 when present — are re-run with navis switched in-process to each back-end, every
-run against the SAME Lean model output, "equal up to order among exact ties".  Additionally the same
-call is made under all three back-ends and the observable results are compared with each other
-directly (the property's own formulation)."""
-import importlib, warnings, random
+Streams
+* re-run: the correspondence streams of C05 (distances, segments), C10 (reroot, cut, subset), C12 (pruning),
+  C17 (Strahler, flows), C11 (healing), C13 (down/resampling) are executed with navis switched in-process to
+  each back-end, every run against the SAME Lean model output ("equal up to order among exact ties").
+* sweep: `strahler_index` on the two pure-Python configurations vs the Lean model of the Python sweep AS WRITTEN
+  (`c04x.sweep`, work set popped in three different orders — the theorem says the order cannot matter), with
+  `to_ignore` (end nodes, also inner nodes / foreign ids: the as-written model takes any list), `min_twig_size`,
+  both methods; igraph == networkx always, == fastcore when nothing is ignored.
+* segvar: `_break_segments` / `_generate_segments` of the igraph and of the networkx variant vs their as-written
+  Lean models (`c04x.break`, `c04x.gen`; exact list order, ties included; the igraph seed *set* of
+  `_break_segments` up to permutation), igraph == networkx exactly, fastcore up to ties + Lean checkers.
+* direct: the same call under all back-ends, canonical observables compared pairwise (the property's own
+  formulation): segments, small segments, components, geodesic matrices (from_/limit/directed/weight), point
+  distances, distal-to, classification (new and old classifier), Strahler, twig pruning (exact ties, recursive,
+  mask), cable / parent distances, synapse flow centrality, reroot, cut, subset.
+* history: multi-step histories (reroot / subset / cut / prune_twigs, in place, caches warm) under each back-end;
+  every step against the Lean operation model evaluated on the implementation's own pre-state, final
+  observables compared across back-ends.
+* exhaustive (thorough): every forest with ≤ 5 nodes (ids 0..n-1) through sweep + segvar + direct."""
+import importlib, warnings, random, time, os
 import numpy as np
+import pandas as pd
 
 warnings.filterwarnings('ignore')
 import navis
@@ -16,10 +31,13 @@ from . import c05, c10, c12
 
 navis.config.pbar_hide = True
 navis.set_loggers('ERROR')
-
+GU = navis.graph.graph_utils
 
 # streams of later properties, added here once their driver commands are linked into navisdrv
 EXTRA_STREAMS = ['c17', 'c11', 'c13']
+PY = ('igraph', 'networkx')
+V = {'igraph': 'igraph', 'networkx': 'nx'}
+MODES = ('centrifugal', 'centripetal', 'sum')
 
 
 def optional(name):
@@ -29,18 +47,246 @@ def optional(name):
         return None
 
 
+# ------------------------------------------------------------------------------------------------
+# helpers
+# ------------------------------------------------------------------------------------------------
+def topo(rows):
+    pm = {rw['id']: rw['parent'] for rw in rows}
+    ch = {i: [] for i in pm}
+    for rw in rows:
+        if rw['parent'] >= 0:
+            ch[rw['parent']].append(rw['id'])
+    return pm, ch
+
+
+def leafs_of(rows):
+    pm, ch = topo(rows)
+    return [i for i in pm if pm[i] >= 0 and not ch[i]]
+
+
+def col_of(x, name):
+    return ' '.join(f'{i}={int(v)}' for i, v in sorted(zip(map(int, x.nodes.node_id.values), x.nodes[name].values)))
+
+
+def segs_fmt(ss):
+    return ';'.join(','.join(str(int(v)) for v in s) for s in ss)
+
+
+def set_connectors(x, cn):
+    if cn:
+        x.connectors = pd.DataFrame({'connector_id': np.arange(100, 100 + len(cn), dtype=np.int64),
+                                     'node_id': np.array([c[0] for c in cn], dtype=np.int64),
+                                     'type': [c[1] for c in cn], 'x': 0.0, 'y': 0.0, 'z': 0.0})
+
+
+def depth_map(ctx, wire, w):
+    return {int(t.split('=')[0]): int(t.split('=')[1]) for t in ctx.ask(f'f.distroot {w} | {wire}').split()}
+
+
+def shape_sig(rows):
+    pm, ch = topo(rows)
+    return dict(forest=sum(1 for p in pm.values() if p < 0) > 1, zero=0 in pm,
+                isolated=any(pm[i] < 0 and not ch[i] for i in pm), broot=any(pm[i] < 0 and len(ch[i]) > 1 for i in pm))
+
+
+def count_shape(ctx, name, rows, meta=None):
+    s = shape_sig(rows)
+    for k, v in s.items():
+        if v:
+            ctx.count(name + '_input', k)
+    if meta:
+        ctx.count(name + '_labeling', meta.get('labeling')); ctx.count(name + '_order', meta.get('order'))
+
+
+# ------------------------------------------------------------------------------------------------
+# sweep: Python Strahler code vs its as-written model
+# ------------------------------------------------------------------------------------------------
+def case_sweep(ctx, case):
+    rows, g, ign, mt = case['rows'], case['greedy'], case['ignore'], case['min_twig']
+    what = f"strahler_index(method={'greedy' if g else 'standard'}, to_ignore={ign}, min_twig_size={mt})"
+    outs = {}
+    for be in PY:
+        with backend(be):
+            x = G.to_neuron(rows)
+            wire = G.wire_neuron(x)
+            try:
+                navis.strahler_index(x, method='greedy' if g else 'standard', to_ignore=list(ign), min_twig_size=mt)
+                outs[be] = col_of(x, 'strahler_index')
+            except Exception as e:
+                outs[be] = f'ERR:{type(e).__name__}'
+    ctx.oracle(outs['igraph'] == outs['networkx'], f'{what}: igraph and networkx configurations disagree — igraph={outs["igraph"][:200]}; '
+               f'networkx={outs["networkx"][:200]}', case)
+    head = f"c04x.sweep {int(g)} {','.join(map(str, ign)) or '-'} {mt or 0}"
+    for pk in ('first', 'last', f"mix:{case['seed'] % 1000}"):
+        model = ctx.ask(f'{head} {pk} | {wire}')
+        ctx.corr(outs['igraph'], model, f'{what} on the Python path vs the model of the sweep as written (pop order {pk.split(":")[0]})', case)
+    pm, ch = topo(rows)
+    plain = not ign and not mt
+    ctx.count('sweep', f"{'greedy' if g else 'standard'} ign={'leafs' if ign and all(i in pm and pm[i] >= 0 and not ch[i] for i in ign) else 'other' if ign else 'n'} "
+                       f"mt={'y' if mt else 'n'}")
+    ign_leafs = all(i in pm and pm[i] >= 0 and not ch[i] for i in ign)
+    if ign_leafs:
+        # the definition (C17): structural recurrence, ignored twigs take the index of the branch they hang on
+        rec = ctx.ask(f"p.strahler {int(g)} {','.join(map(str, ign)) or '-'} {mt or 0} | {wire}")
+        for be in PY:
+            ctx.defn(outs[be], rec, f'{what} [{be}] vs the Strahler recurrence (leaf 1; one child: its index; fork: max, +1 when it occurs '
+                     'twice / sum when greedy; ignored twigs take the index of their parent branch)', case)
+    if plain:
+        if 'fastcore' in available():
+            with backend('fastcore'):
+                x = G.to_neuron(rows)
+                try:
+                    navis.strahler_index(x, method='greedy' if g else 'standard')
+                    fc = col_of(x, 'strahler_index')
+                except Exception as e:
+                    fc = f'ERR:{type(e).__name__}'
+            ctx.oracle(fc == outs['igraph'], f'{what}: fastcore and the Python path disagree — fastcore={fc[:200]}; python={outs["igraph"][:200]}',
+                       case, signature='strahler/python-sweep')
+    count_shape(ctx, 'sweep', rows, case.get('meta'))
+
+
+def gen_sweep(ctx, n):
+    r = ctx.rng
+    for k in range(n):
+        rows, meta = G.rand_forest(r, nmax=9 if k % 3 == 0 else 20)
+        ids = [rw['id'] for rw in rows]
+        lf = leafs_of(rows)
+        ign, mt = [], None
+        u = r.random()
+        if u < 0.3 and lf:
+            ign = sorted(l for l in lf if r.random() < 0.45)
+        elif u < 0.4:
+            ign = sorted(set(r.sample(ids, min(len(ids), r.randint(1, 3))) + [max(ids) + 7]))   # inner nodes, foreign id
+        elif u < 0.6:
+            mt = r.choice([1, 2, 3, 4, 6])
+        yield dict(kind='sweep', rows=rows, greedy=r.random() < 0.4, ignore=ign, min_twig=mt, seed=r.randrange(10 ** 9), meta=meta)
+
+
+# ------------------------------------------------------------------------------------------------
+# segvar: the Python segment builders vs their as-written models
+# ------------------------------------------------------------------------------------------------
+def lens_of(segs, depth):
+    return sorted((depth[s[0]] - depth[s[-1]] for s in segs), reverse=True)
+
+
+def case_segvar(ctx, case):
+    rows = case['rows']
+    out = {}
+    for be in available():
+        with backend(be):
+            x = G.to_neuron(rows)
+            wire = G.wire_neuron(x)
+            o = {}
+            try:
+                o['break'] = [[int(v) for v in s] for s in GU._break_segments(x)]
+            except Exception as e:
+                o['break'] = f'ERR:{type(e).__name__}'
+            for w in (0, 1):
+                try:
+                    o[f'gen{w}'] = [[int(v) for v in s] for s in GU._generate_segments(x, weight='weight' if w else None)]
+                except Exception as e:
+                    o[f'gen{w}'] = f'ERR:{type(e).__name__}'
+            out[be] = o
+    # as-written models of the two Python variants.  Property-level observables only: the ORDER of the small segments
+    # and the order / choice among exact ties (equal leaf depths, equal segment lengths) are not compared.
+    pmap, ch = topo(rows)
+    ties = {}
+    for w in (0, 1):
+        depth = depth_map(ctx, wire, w)
+        ld = [depth[i] for i in pmap if pmap[i] >= 0 and not ch[i]]
+        ties[w] = (depth, len(set(ld)) != len(ld))
+    def canon_gen(segs, w):
+        """exact list when nothing ties; otherwise the multiset of lengths + the isolated nodes (any admissible
+        decomposition has these), the decomposition itself being judged by the Lean checker"""
+        if not isinstance(segs, list):
+            return segs
+        depth, leaf_tie = ties[w]
+        lens = lens_of(segs, depth)
+        multi = [depth[s[0]] - depth[s[-1]] for s in segs if len(s) > 1]
+        nsingle = sum(1 for s in segs if len(s) == 1)
+        # ties: equally deep leafs, equally long segments, or zero-length segments next to isolated nodes (length 0 too)
+        if not leaf_tie and len(set(multi)) == len(multi) and not (0 in multi and nsingle):
+            return segs_fmt(segs)
+        return 'lens=' + ','.join(map(str, lens)) + ' single=' + ','.join(map(str, sorted(s[0] for s in segs if len(s) == 1)))
+    def parse(m):
+        return m if m.startswith('ERR') else ([[int(v) for v in s.split(',')] for s in m.split(';')] if m else [])
+    for be in PY:
+        o = out[be]
+        m = ctx.ask(f'c04x.break {V[be]} | {wire}')
+        impl = ';'.join(sorted(segs_fmt(o['break']).split(';'))) if isinstance(o['break'], list) else o['break']
+        ctx.corr(impl, ';'.join(sorted(m.split(';'))), f'_break_segments ({be} variant) vs its model as written (as a set)', case)
+        for w in (0, 1):
+            m = parse(ctx.ask(f'c04x.gen {V[be]} {w} | {wire}'))
+            ctx.corr(canon_gen(o[f'gen{w}'], w), canon_gen(m, w), f'_generate_segments(weight={w}) ({be} variant) vs its model as written '
+                     '(exact list unless leaf depths / segment lengths tie)', case)
+            if isinstance(o[f'gen{w}'], list):
+                ok = ctx.ask(f'f.segsok {w} | {wire} | {segs_fmt(o[f"gen{w}"])}')
+                ctx.oracle(ok == '1', f'_generate_segments(weight={w}) ({be} variant) fails the Lean checker (edge partition into child->parent paths, '
+                           'longest first, isolated nodes as single-node segments)', case)
+            ctx.count('segvar_ties', f'w{w} ' + ('tie' if not str(canon_gen(o[f"gen{w}"], w))[:1].isdigit() else 'unique'))
+    # the property: all back-ends the same up to ties
+    for w in (0, 1):
+        key = f'gen{w}'
+        ctx.oracle(canon_gen(out['igraph'][key], w) == canon_gen(out['networkx'][key], w), f'_generate_segments[{key}]: igraph and networkx variants disagree — '
+                   f'igraph={str(out["igraph"][key])[:160]}; networkx={str(out["networkx"][key])[:160]}', case)
+    canon = {be: (sorted(out[be]['break']) if isinstance(out[be]['break'], list) else out[be]['break']) for be in out}
+    ref = canon['networkx']
+    for be in out:
+        ctx.oracle(canon[be] == ref, f'small segments: {be} and networkx disagree — {be}={str(canon[be])[:160]}; networkx={str(ref)[:160]}', case)
+    if 'fastcore' in out:
+        for w in (0, 1):
+            key = f'gen{w}'
+            fc, py = out['fastcore'][key], out['networkx'][key]
+            if isinstance(fc, list):
+                ok = ctx.ask(f'f.segsok {w} | {wire} | {segs_fmt(fc)}')
+                ctx.oracle(ok == '1', f'_generate_segments[{key}] (fastcore) fails the Lean checker', case)
+            ctx.oracle(canon_gen(fc, w) == canon_gen(py, w), f'_generate_segments[{key}]: fastcore and networkx disagree (beyond ties) — '
+                       f'fastcore={str(fc)[:160]}; networkx={str(py)[:160]}', case)
+    count_shape(ctx, 'segvar', rows, case.get('meta'))
+
+
+def gen_segvar(ctx, n):
+    r = ctx.rng
+    for k in range(n):
+        rows, meta = G.rand_forest(r, nmax=9 if k % 3 == 0 else 20, allow_zero_edges=(k % 5 == 0))
+        yield dict(kind='segvar', rows=rows, meta=meta)
+
+
+# ------------------------------------------------------------------------------------------------
+# direct: same calls under every back-end, pairwise comparison of canonical observables
+# ------------------------------------------------------------------------------------------------
+def labelled(df):
+    return c05.canon_matrix(df)
+
+
 def direct_compare(ctx, case):
     """Same calls under every back-end; compare canonical observables pairwise."""
     rows = case['rows']
     r = random.Random(case['seed'])
     ids = [rw['id'] for rw in rows]
-    pm = {rw['id']: rw['parent'] for rw in rows}
+    pm, ch = topo(rows)
     outs = {}
     src = r.choice(ids)
     size = r.choice([1, 3, 5, 9, 14])
+    lim = r.choice([None, None, 1, 3, 5, 9, 11])
+    fr = r.sample(ids, r.randint(1, len(ids))) if r.random() < 0.6 else None
+    A = r.sample(ids, min(len(ids), r.randint(1, 4))); B = r.sample(ids, min(len(ids), r.randint(1, 4)))
+    pa, pb = r.choice(ids), r.choice(ids)
+    rec = r.choice([0, 0, 1, 3])
+    keep = r.sample(ids, r.randint(1, len(ids)))
+    lf = [i for i in ids if pm[i] >= 0 and not ch[i]]
+    mask = sorted(set(r.sample(ids, r.randint(1, len(ids))))) if r.random() < 0.35 else None
+    cn = case.get('connectors')
+    mode = MODES[case['seed'] % 3]
+    nonroot = [i for i in ids if pm[i] >= 0]
+    single = sum(1 for p in pm.values() if p < 0) == 1
+    cuts = r.sample(nonroot, min(len(nonroot), r.randint(1, 3))) if (nonroot and single) else []
+    ret = r.choice(['both', 'both', 'distal', 'proximal'])
+    rr = r.sample(ids, min(len(ids), r.randint(1, 3)))
     for be in available():
         with backend(be):
             x = G.to_neuron(rows)
+            set_connectors(x, cn)
             o = {}
 
             def put(name, f):
@@ -49,92 +295,386 @@ def direct_compare(ctx, case):
                 except Exception as e:
                     o[name] = f'ERR:{type(e).__name__}'
             put('small_segments', lambda: c05.canon_segs(x.small_segments))
-            put('components', lambda: sorted(sorted(int(v) for v in cc) for cc in navis.graph.graph_utils._connected_components(x)))
-            put('geodesic', lambda: c05.canon_matrix(navis.geodesic_matrix(x)))
-            put('geodesic_dir_unw', lambda: c05.canon_matrix(navis.geodesic_matrix(x, directed=True, weight=None)))
+            put('components', lambda: sorted(sorted(int(v) for v in cc) for cc in GU._connected_components(x)))
+            put('geodesic', lambda: labelled(navis.geodesic_matrix(x)))
+            put('geodesic_dir_unw', lambda: labelled(navis.geodesic_matrix(x, directed=True, weight=None)))
+            kw = dict(directed=bool(case['seed'] & 1), weight='weight' if case['seed'] & 2 else None)
+            if lim is not None:
+                kw['limit'] = lim
+            if fr is not None:
+                kw['from_'] = fr
+            put('geodesic_opts', lambda: labelled(navis.geodesic_matrix(x, **kw)))
+
+            def db():
+                try:
+                    return c05.fmt(navis.dist_between(x, pa, pb))
+                except Exception as e:
+                    return f'RAISES:{type(e).__name__}'
+            put('dist_between', db)
+            put('dist_to_root', lambda: ' '.join(f'{i}={c05.fmt(v)}' for i, v in sorted(navis.graph.dist_to_root(x, weight='weight').items())))
             put('cable', lambda: c05.fmt(x.cable_length))
             put('parent_dist', lambda: [c05.fmt(v) for v in navis.morpho.mmetrics.parent_dist(x, root_dist=0)])
             put('strahler', lambda: dict(zip(map(int, x.nodes.node_id), map(int, navis.strahler_index(x).nodes.strahler_index))))
             put('distal_to', lambda: bool(navis.distal_to(x, ids[0], src)) if len(ids) > 1 else None)
+
+            def dt():
+                df = navis.distal_to(x, A, B)
+                if isinstance(df, (bool, np.bool_)):
+                    return str(bool(df))
+                return ' '.join(f'{a}>{b}={int(bool(df.loc[a, b]))}' for a in sorted(set(A)) for b in sorted(set(B)))
+            put('distal_to_matrix', dt)
+            put('classify', lambda: G.topo_neuron(navis.graph.classify_nodes(x.copy(), inplace=True)))
+            if be != 'fastcore' and hasattr(GU, '_classify_nodes_old'):
+                put('classify_old', lambda: G.topo_neuron(GU._classify_nodes_old(x.copy(), inplace=True)))
             put('reroot', lambda: G.topo_neuron(navis.reroot_skeleton(x, src, inplace=False)))
+            put('reroot_many', lambda: G.topo_neuron(navis.reroot_skeleton(x, rr, inplace=False)))
             put('twigs', lambda: G.topo_neuron(navis.prune_twigs(x, size=size, inplace=False)))
+            put('twigs_recursive', lambda: G.topo_neuron(navis.prune_twigs(x, size=size, inplace=False, recursive=rec)))
+            if mask is not None:
+                put('twigs_mask', lambda: G.topo_neuron(navis.prune_twigs(x, size=size, inplace=False, mask=np.array(mask, dtype=np.int64))))
             put('subset', lambda: G.topo_neuron(navis.subset_neuron(x, ids[::2], inplace=False)))
-            nonroot = [i for i in ids if pm[i] >= 0]
-            if nonroot and sum(1 for p in pm.values() if p < 0) == 1:
+            put('subset_random', lambda: G.topo_neuron(navis.subset_neuron(x, keep, inplace=False)))
+            if nonroot and single:
                 c = nonroot[0]
                 put('cut', lambda: ' || '.join(G.topo_neuron(f) for f in navis.cut_skeleton(x, c)))
+                put('cut_many', lambda: ' || '.join(sorted(G.topo_neuron(f) for f in navis.cut_skeleton(x, cuts, ret=ret if len(cuts) == 1 else 'both'))))
+            if cn:
+                put('sfc', lambda: col_of(navis.synapse_flow_centrality(x.copy(), mode=mode), 'synapse_flow_centrality'))
+                if be != 'fastcore':
+                    pre = ','.join(str(c[0]) for c in cn if c[1] == 'pre'); post = ','.join(str(c[0]) for c in cn if c[1] == 'post')
+                    ctx.corr(o['sfc'], ctx.ask(f'c04x.sfcpy {mode} | {pre} | {post} | {G.wire_neuron(x)}'),
+                             f'synapse_flow_centrality(mode={mode}) [{be}] vs the model of the Python path as written (formula at branch/root/'
+                             'connector nodes, propagation along small segments, fork rule)', dict(case, observable='sfc'))
             outs[be] = o
     bes = list(outs)
-    for name in outs[bes[0]]:
-        vals = {be: outs[be].get(name) for be in bes}
-        ref = vals[bes[0]]
-        for be in bes[1:]:
+    for name in outs['networkx']:
+        vals = {be: outs[be].get(name) for be in bes if name in outs[be]}
+        ref_be = 'networkx'
+        ref = vals[ref_be]
+        for be in vals:
+            if be == ref_be:
+                continue
             if vals[be] != ref:
-                sig = direct_signature(name, case, vals)
+                sig = direct_signature(name, case, vals, be, mask)
                 ctx.oracle(False, f'{name}: back-ends disagree — ' + '; '.join(f'{b}={str(v)[:160]}' for b, v in vals.items()),
                            dict(case, observable=name), signature=sig)
                 break
+        else:
+            ctx.oracle(True, name, case)
         ctx.count('direct_observable', name)
+    # components: navis' grouping of fastcore's root labels / the undirected closure, as modelled side by side
+    mc = ctx.ask('c04x.components ' + G.wire_rows(rows)).split(' # ')
+    for be in outs:
+        v = outs[be].get('components')
+        impl = ';'.join(','.join(map(str, c)) for c in v) if isinstance(v, list) else v
+        ctx.corr(impl, mc[0 if be == 'fastcore' else 1], f'_connected_components [{be}] vs its model (' +
+                 ('groups of equal root label' if be == 'fastcore' else 'undirected closure') + ')', dict(case, observable='components'))
+    # old classifier == new classifier (both degree conventions)
+    for be in PY:
+        if 'classify_old' in outs[be]:
+            ctx.oracle(outs[be]['classify_old'] == outs[be]['classify'], f'_classify_nodes_old ({be} degrees) differs from classify_nodes: '
+                       f'{outs[be]["classify_old"][:160]} vs {outs[be]["classify"][:160]}', dict(case, observable='classify_old'))
+    count_shape(ctx, 'direct', rows, case.get('meta'))
 
 
-def direct_signature(name, case, vals):
+def direct_signature(name, case, vals, be, mask=None):
     rows = case['rows']
-    pm = {rw['id']: rw['parent'] for rw in rows}
-    ch = {}
-    for i, p in pm.items():
-        ch.setdefault(p, []).append(i)
+    pm, ch = topo(rows)
     if name == 'strahler':
         return 'strahler/python-sweep'
-    if name == 'twigs':
+    if name in ('twigs', 'twigs_recursive'):
         return 'prune_twigs/python/chain-ending-at-nonforking-root'
-    if name in ('geodesic', 'geodesic_dir_unw') and all(p < 0 for p in pm.values()):
+    if name == 'twigs_mask' and be == 'fastcore':
+        # two documented divergences of compiled navis-fastcore when a mask is given
+        chain_on_root = any(pm[i] < 0 and len(ch[i]) == 1 for i in pm)
+        return 'prune_twigs/fastcore+mask/chain-ending-at-nonforking-root' if chain_on_root and _mask_whole_twigs(rows, mask) \
+            else 'prune_twigs/fastcore/mask-applied-per-node'
+    if name in ('geodesic', 'geodesic_dir_unw', 'geodesic_opts') and all(p < 0 for p in pm.values()):
         return 'geodesic_matrix/igraph/no-edges'
-    if name == 'reroot' and 0 in pm:
+    if name in ('reroot', 'reroot_many') and 0 in pm:
         return 'reroot/networkx/node-id-0'
+    if name == 'dist_between':
+        v = vals.get('networkx')
+        others = [vals[b] for b in vals if b != 'networkx']
+        if v == 'RAISES:NetworkXNoPath' and all(o == 'inf' for o in others):
+            return 'dist_between/networkx/unreachable-raises-NetworkXNoPath'
     return None
 
 
+def _mask_whole_twigs(rows, mask):
+    """True when every terminal twig (leaf up to, excluding, the next fork or root) is either entirely inside or
+    entirely outside the mask — then per-node masking and per-leaf masking coincide."""
+    if mask is None:
+        return True
+    pm, ch = topo(rows)
+    ms = set(mask)
+    for l in pm:
+        if pm[l] >= 0 and not ch[l]:
+            tw = [l]
+            p = pm[l]
+            while p >= 0 and len(ch[p]) == 1 and pm[p] >= 0:
+                tw.append(p); p = pm[p]
+            ins = [t in ms for t in tw]
+            if any(ins) and not all(ins):
+                return False
+    return True
+
+
+def gen_direct(ctx, n):
+    r = ctx.rng
+    for k in range(n):
+        rows, meta = G.rand_forest(r, nmax=10 if k % 2 else 24)
+        ids = [rw['id'] for rw in rows]
+        cn = None
+        if k % 3 != 2:
+            cn = [[r.choice(ids), r.choice(['pre', 'post'])] for _ in range(r.randint(1, min(2 * len(ids), 12)))]
+        yield dict(rows=rows, seed=r.randrange(10 ** 9), meta=meta, kind='direct', connectors=cn)
+
+
+# ------------------------------------------------------------------------------------------------
+# history: multi-step, in place, warm caches, every back-end
+# ------------------------------------------------------------------------------------------------
+def warm(x):
+    for a in ('graph', 'igraph', 'segments', 'small_segments', 'cable_length', 'n_trees', 'leafs', 'geodesic_matrix'):
+        try:
+            getattr(x, a)
+        except Exception:
+            pass
+
+
+def plan_history(r, rows, nsteps):
+    """Ops chosen on the model side from the evolving topology (pure Python bookkeeping: parent map)."""
+    pm = {rw['id']: rw['parent'] for rw in rows}
+    ops = []
+    for _ in range(nsteps):
+        ids = list(pm)
+        if len(ids) < 2:
+            break
+        ch = {}
+        for i, p in pm.items():
+            ch.setdefault(p, []).append(i)
+        nonroot = [i for i in ids if pm[i] >= 0]
+        single = sum(1 for p in pm.values() if p < 0) == 1
+        u = r.random()
+        if u < 0.35:
+            t = r.choice(ids)
+            ops.append(['reroot', t])
+            # reverse the path
+            path = [t]
+            while pm[path[-1]] >= 0:
+                path.append(pm[path[-1]])
+            for a, b in zip(path[1:], path[:-1]):
+                pm[a] = b
+            pm[t] = -1
+        elif u < 0.6:
+            keep = sorted(r.sample(ids, r.randint(max(1, len(ids) // 2), len(ids))))
+            ops.append(['subset', keep])
+            ks = set(keep)
+            pm = {i: (pm[i] if pm[i] in ks else -1) for i in keep}
+        elif u < 0.8 and nonroot and single:
+            c = r.choice(nonroot)
+            which = r.choice(['cutd', 'cutp'])
+            ops.append([which, c])
+            desc = set()
+            stack = [c]
+            while stack:
+                v = stack.pop(); desc.add(v); stack += ch.get(v, [])
+            if which == 'cutd':
+                pm = {i: (pm[i] if i != c else -1) for i in desc}
+            else:
+                pm = {i: pm[i] for i in ids if i not in desc or i == c}
+        else:
+            ops.append(['twigs', r.choice([1, 3, 5, 9])])
+            return ops          # topology after pruning is left to the model; stop planning here
+    return ops
+
+
+def apply_op(x, op):
+    k, a = op
+    if k == 'reroot':
+        navis.reroot_skeleton(x, a, inplace=True); return x
+    if k == 'subset':
+        navis.subset_neuron(x, a, inplace=True); return x
+    if k == 'cutd':
+        return navis.cut_skeleton(x, a, ret='distal')[0]
+    if k == 'cutp':
+        return navis.cut_skeleton(x, a, ret='proximal')[0]
+    if k == 'twigs':
+        navis.prune_twigs(x, size=a, inplace=True); return x
+    raise ValueError(k)
+
+
+def model_op(ctx, op, wire):
+    k, a = op
+    if k == 'twigs':
+        return ctx.ask(f'p.twigs {a} 0 - | {wire}')
+    arg = ','.join(map(str, a)) if isinstance(a, list) else str(a)
+    return ctx.ask(f'f.ops {k}={arg} | {wire}')
+
+
+def case_history(ctx, case):
+    rows, ops = case['rows'], case['ops']
+    finals = {}
+    for be in available():
+        with backend(be):
+            x = G.to_neuron(rows)
+            ok = True
+            for n, op in enumerate(ops):
+                warm(x)
+                pre = G.wire_neuron(x)
+                try:
+                    x = apply_op(x, op)
+                    post = G.topo_neuron(x)
+                except Exception as e:
+                    post = f'ERR:{type(e).__name__}'
+                model = model_op(ctx, op, pre)
+                sig = None
+                if op[0] == 'twigs':
+                    sig = 'prune_twigs/python/chain-ending-at-nonforking-root'
+                if not ctx.corr(post, model, f'history step {n} {op[0]} [{be}] vs operation model on the pre-state', dict(case, step=n, be=be), signature=sig):
+                    ok = False
+                    break
+                ctx.count('history_op', f'{op[0]} {be}')
+            if not ok:
+                finals[be] = None
+                continue
+            o = {}
+
+            def put(name, f):
+                try:
+                    o[name] = f()
+                except Exception as e:
+                    o[name] = f'ERR:{type(e).__name__}'
+            put('topo', lambda: G.topo_neuron(x))
+            put('geodesic', lambda: labelled(navis.geodesic_matrix(x)))
+            put('small_segments', lambda: c05.canon_segs(x.small_segments))
+            put('cable', lambda: c05.fmt(x.cable_length))
+            put('strahler', lambda: col_of(navis.strahler_index(x), 'strahler_index'))
+            put('components', lambda: sorted(sorted(int(v) for v in cc) for cc in GU._connected_components(x)))
+            # hop counts of the (unweighted) greedy segments: invariant under tie-breaking among equally deep leafs
+            put('seg_hops', lambda: sorted((len(s) - 1 for s in x.segments), reverse=True))
+            # the final table's observables against the definitions, on the implementation's own final table
+            fw = G.wire_neuron(x, labels=False)
+            ctx.corr(o['geodesic'], ctx.ask(f'f.geo 0 1 inf * | {fw}'), f'history: geodesic_matrix after {len(ops)} in-place steps (warm caches) [{be}]', dict(case, be=be))
+            ctx.corr(o['cable'], ctx.ask('f.cable ' + fw), f'history: cable_length after {len(ops)} in-place steps (warm caches) [{be}]', dict(case, be=be))
+            finals[be] = o
+    ref = finals.get('networkx')
+    for be, o in finals.items():
+        if o is None or ref is None or be == 'networkx':
+            continue
+        for name in ref:
+            ctx.oracle(o.get(name) == ref[name], f'history: {name} after {[op[0] for op in ops]} differs — {be}={str(o.get(name))[:160]}; '
+                       f'networkx={str(ref[name])[:160]}', dict(case, observable=name))
+    ctx.count('history_len', len(ops))
+
+
+def gen_history(ctx, n):
+    r = ctx.rng
+    for k in range(n):
+        rows, meta = G.rand_forest(r, n=r.randint(4, 16))
+        ops = plan_history(r, rows, r.randint(2, 5))
+        if ops:
+            yield dict(kind='history', rows=rows, ops=ops, meta=meta)
+
+
+# ------------------------------------------------------------------------------------------------
+def exhaustive_rows(nmax):
+    import itertools
+    for n in range(1, nmax + 1):
+        for par in itertools.product(*[range(-1, i) for i in range(n)]):
+            rows = [dict(id=i, parent=par[i], x=0, y=0, z=0) for i in range(n)]
+            for i in range(n):
+                if par[i] >= 0:
+                    p = rows[par[i]]
+                    rows[i]['x'], rows[i]['y'], rows[i]['z'] = p['x'] + 3, p['y'] + 4 * ((i % 2) * 2 - 1), p['z']
+                else:
+                    rows[i]['x'] = 40 * i
+            yield rows
+
+
+RUN = {'sweep': case_sweep, 'segvar': case_segvar, 'direct': direct_compare, 'history': case_history}
+
+
 def run(ctx):
-    ctx.extra['rule'] = ('every case of the C05/C10/C12 (+C17/C11/C13 when built) streams is executed under each available back-end '
-                         f'{available()} against the same Lean model; plus direct pairwise comparison of 12 observables per forest; '
-                         'non-trivial when ≥ 3 nodes')
-    mods = [('c05', c05, 25, 300), ('c10', c10, 25, 300), ('c12', c12, 25, 300)]
+    ctx.extra['rule'] = ('every case of the C05/C10/C12 (+C17/C11/C13) streams is executed under each available back-end '
+                         f'{available()} against the same Lean model; own streams: sweep (Python Strahler code vs its as-written model, 3 pop orders), '
+                         'segvar (Python segment builders vs as-written models, exact order), direct (pairwise comparison of ~25 observables per forest), '
+                         'history (2–5 in-place steps with warm caches per back-end); non-trivial when ≥ 3 nodes')
+    timings = {}
+    mods = [('c05', c05, 30, 220), ('c10', c10, 25, 150), ('c12', c12, 20, 150)]
     for nm in EXTRA_STREAMS:
         m = optional(nm)
         if m is not None and hasattr(m, 'gen_cases') and hasattr(m, 'RUNNERS'):
-            mods.append((nm, m, 15, 200))
-    ctx.extra['streams'] = [m[0] for m in mods]
+            mods.append((nm, m, {'c17': 25, 'c13': 12}.get(nm, 8), 150))
+    ctx.extra['streams'] = [m[0] for m in mods] + list(RUN)
     # defects recorded under the streams' home properties are known here too (same call sites, same signatures)
     from .common import load_known
     home = {m[0].upper() for m in mods}
     have = {k['signature'] for k in ctx.known}
     ctx.known += [k for k in load_known() if k.get('property') in home and k.get('status') == 'open' and k['signature'] not in have]
-    for be in available():
+    only_own = os.environ.get('C04_ONLY') == 'own'      # development aid: skip the re-run streams
+    for be in ([] if only_own else available()):
         with backend(be):
             for nm, mod, q, t in mods:
+                t0 = time.time()
                 n = ctx.budget(q, t)
+                only = getattr(mod, 'BACKEND_STREAMS', None)     # kinds that depend on the back-end at all
+                orig_budget = ctx.budget
                 try:
                     gen = mod.gen_cases(ctx, n)
                 except TypeError:
+                    # the module sizes its own stream: scale its budgets down to a sample for the re-run
+                    scale = (0.05 if ctx.quick() else 0.05)
+                    ctx.budget = lambda q_, t_, _o=orig_budget, _s=scale: max(1, int(_o(q_, t_) * _s))
                     gen = mod.gen_cases(ctx)
-                for kind, case in gen:
-                    c = dict(case, kind=kind, be=be, stream=nm)
-                    ctx.case(c, nontrivial=len(case.get('rows', [])) >= 3)
-                    ctx.count('backend', be); ctx.count('stream', f'{nm}.{kind}')
-                    mod.RUNNERS[kind](ctx, case, be)
-    r = ctx.rng
-    for k in range(ctx.budget(60, 800)):
-        rows, meta = G.rand_forest(r, nmax=10 if k % 2 else 24)
-        case = dict(rows=rows, seed=r.randrange(10 ** 9), meta=meta, kind='direct')
-        ctx.case(case, nontrivial=len(rows) >= 3)
-        direct_compare(ctx, case)
+                try:
+                    for kind, case in gen:
+                        if only is not None and kind not in only:
+                            continue
+                        c = dict(case, kind=kind, be=be, stream=nm)
+                        ctx.case(c, nontrivial=len(case.get('rows', [])) >= 3)
+                        ctx.count('backend', be); ctx.count('stream', f'{nm}.{kind}')
+                        mod.RUNNERS[kind](ctx, case, be)
+                finally:
+                    ctx.budget = orig_budget
+                timings[f'{nm}[{be}]'] = round(time.time() - t0, 1)
+    for name, gen, q, t in (('sweep', gen_sweep, 110, 1500), ('segvar', gen_segvar, 70, 1000), ('direct', gen_direct, 32, 200),
+                            ('history', gen_history, 22, 150)):
+        t0 = time.time()
+        for case in gen(ctx, ctx.budget(q, t)):
+            ctx.case(case, nontrivial=len(case['rows']) >= 3)
+            ctx.count('stream', name)
+            RUN[name](ctx, case)
+        timings[name] = round(time.time() - t0, 1)
+    if not ctx.quick():
+        t0 = time.time()
+        r = random.Random(ctx.seed)
+        for rows in exhaustive_rows(5):
+            for g in (False, True):
+                case = dict(kind='sweep', rows=rows, greedy=g, ignore=[], min_twig=None, seed=r.randrange(10 ** 9), meta=dict(shape='exhaustive'))
+                ctx.case(case, nontrivial=len(rows) >= 3); case_sweep(ctx, case)
+            lf = leafs_of(rows)
+            if lf:
+                case = dict(kind='sweep', rows=rows, greedy=False, ignore=sorted(l for l in lf if r.random() < 0.5), min_twig=r.choice([None, 2, 3]),
+                            seed=r.randrange(10 ** 9), meta=dict(shape='exhaustive'))
+                ctx.case(case, nontrivial=len(rows) >= 3); case_sweep(ctx, case)
+            case = dict(kind='segvar', rows=rows, meta=dict(shape='exhaustive'))
+            ctx.case(case, nontrivial=len(rows) >= 3); case_segvar(ctx, case)
+            ctx.count('stream', 'exhaustive')
+        for rows in exhaustive_rows(4):
+            case = dict(kind='direct', rows=rows, seed=r.randrange(10 ** 9), meta=dict(shape='exhaustive'), connectors=None)
+            ctx.case(case, nontrivial=len(rows) >= 3); direct_compare(ctx, case)
+        timings['exhaustive'] = round(time.time() - t0, 1)
+    ctx.extra['timings_s'] = timings
+    ctx.notes.append('seconds per stream: ' + ', '.join(f'{k}={v}' for k, v in timings.items()))
 
 
 def replay(ctx, rp):
     case = rp['case']
     ctx.case(case)
-    if case.get('kind') == 'direct':
-        direct_compare(ctx, case)
+    kind = case.get('kind')
+    if kind in RUN and 'stream' not in case:
+        RUN[kind](ctx, {k: v for k, v in case.items() if k not in ('observable', 'step', 'be')})
         return
     mod = {'c05': c05, 'c10': c10, 'c12': c12}.get(case.get('stream')) or optional(case.get('stream'))
     be = case.get('be')
